@@ -5,7 +5,7 @@ import os
 VERIF = os.path.dirname(os.path.dirname(os.path.abspath(__file__)))
 
 NOTE_COMMON = ("Trusted: Coq 8.16.1 kernel + vm_compute (no native_compute); no axioms declared, Print Assumptions per theorem in the evidence; "
-               "fail-closed ast translators (harness/gen_*.py) regenerate coq/Gen/*.v on every run; hand-written Gallina model tied to /repo by "
+               "fail-closed ast translators (harness/gen_*.py; harness/pyfuns.py translates the bodies of the header functions statement by statement) regenerate coq/Gen/*.v on every run; hand-written Gallina model tied to /repo by "
                "the correspondence check (model evaluated inside Coq, no extraction); CPython built-ins (struct, codecs, int/float, dict order) are modelled not verified.")
 
 CLAIMED = {
@@ -14,7 +14,7 @@ CLAIMED = {
              "(C01_encode_exact, C01_header_bits incl. all length-byte boundaries), decode(encode v ++ tail) returns the value and consumes exactly "
              "the encoding (C01_roundtrip, structural induction, unbounded), unchanged unless an F4 double is not a binary32 value (C01_equal_value); "
              "class constants are regenerated from the source and proved equal to the E5 table (C01_constants_are_E5). The model is tied to the code by "
-             "differential execution on ~2k (quick) / ~14k (thorough) cases whose observations are also judged by the specification alone.",
+             "differential execution on ~2k (quick) / ~14k (thorough) cases whose observations are also judged by the specification alone. The item header functions Base.encode_item_header / decode_item_header are translated statement by statement from the source on every run (harness/pyfuns.py -> Gen/PyVarHdr.v) and proved equal to the model's for every format code, length, byte string and position (C01_header_code_is_model).",
         note=NOTE_COMMON + " Not modelled: int('12')/float('1.5')/str(number) conversions, NaN payloads, Boolean from strings; count=0 types are outside the domain.",
         technique="Rocq proof (induction over nested values) + translator-regenerated constants + in-Coq differential correspondence",
         design="5/C01",
@@ -25,7 +25,7 @@ CLAIMED = {
              "model of the library decoder returns exactly the item's value and end position (C02_decode_valid, simulation by induction on nesting), the value "
              "denotes the item (C02_value_denotes_item) and re-encodes to the canonical encoding (C02_reencode_canonical); every finite binary32 survives "
              "widening/rounding and lies inside the regenerated F4 bounds (C02_every_finite_float32). Tied to the code by differential execution on "
-             "re-laid-out encodings whose observations are judged by the reference decoder alone.",
+             "re-laid-out encodings whose observations are judged by the reference decoder alone. The header reader Base.decode_item_header, translated from the source on every run, is proved equal to the model's for every byte string and position (C02_header_reader_is_model).",
         note=NOTE_COMMON + " NaN payloads are outside the statement (Python's nan != nan); records must be sent with all their fields.",
         technique="Rocq proof (decoder-vs-reference-decoder simulation) + translator-regenerated constants + in-Coq differential correspondence",
         design="5/C02",
@@ -35,7 +35,7 @@ CLAIMED = {
              "E5 specification (C14_encode_exact); Item.decode of every encoding the reference decoder accepts returns the item's value, which re-encodes "
              "canonically (C14_decode_reencode_canonical, via a model-to-model agreement lemma with the ANYVALUE decoder and C02's simulation); from_value(int) "
              "is exactly the standard's narrowest unsigned/signed type (C14_from_value_narrowest); the two regenerated constant tables coincide "
-             "(C14_constants_coincide). Tied to the code by differential execution of constructors, from_value, encode, decode and the cross-API bytes.",
+             "(C14_constants_coincide). Tied to the code by differential execution of constructors, from_value, encode, decode and the cross-API bytes. Item.encode_item_header / Item._decode_item_header and Base.encode_item_header are translated from the source on every run (Gen/PyItemHdr.v, Gen/PyVarHdr.v) and proved equal to the models and to each other for every format code and length (C14_header_code_is_model).",
         note=NOTE_COMMON + " JIS-8 items reach Item.decode only through the correspondence (Dynamic has no J entry, DESIGN 11); str.encode('utf-8') is modelled for ASCII only; floats given to from_value are outside the statement's list of plain types.",
         technique="Rocq proof (encoder equality, model-to-model decoder agreement, decision rule for from_value) + regenerated constants + in-Coq differential correspondence",
         design="5/C14",
@@ -46,7 +46,7 @@ CLAIMED = {
              "(C16_split); in any received trace - blocks of other system bytes interleaved anywhere - the blocks of one message yield its body under its last "
              "block's header, exactly once (C16_reassembly_interleaved, locality + induction over the trace), also when blocks of an attempt that was never completed are still "
              "kept for the same system bytes (C16_reassembly_after_abandoned_attempt); a block with any single byte altered is never "
-             "accepted (C16_corruption_detected: arithmetic on the checksum, no wrap below 65536). Framing constants are regenerated from the source.",
+             "accepted (C16_corruption_detected: arithmetic on the checksum, no wrap below 65536). Framing constants are regenerated from the source. SecsIHeader.encode / decode are translated statement by statement from the source on every run (Gen/PySecsIHdr.v) and proved equal to the model's header functions (C16_header_code_is_model).",
         note=NOTE_COMMON + " The reassembled message reports the last block's header (block number n); messages above 32767 blocks are outside the statement.",
         technique="Rocq proof (bit-level header lemmas, trace induction with a per-system-id locality lemma, checksum arithmetic) + regenerated constants + in-Coq differential correspondence",
         design="5/C16",
@@ -56,7 +56,7 @@ CLAIMED = {
              "of valid frames and EVERY partition of their byte stream into segments the receive path delivers exactly those messages in order and ends empty "
              "and un-parked (C04_reassembly_segmentation_independent), as a corollary of: incremental feeding equals draining the concatenated stream "
              "(C04_incremental_equals_whole: commutation lemma drain(a ++ s), fuel irrelevance, stability). The model is the sequential behaviour of the "
-             "receiver thread (append, trigger, peek length, wait for the frame, pop, decode, queue); it is tied to the real HsmsProtocol running its own threads.",
+             "receiver thread (append, trigger, peek length, wait for the frame, pop, decode, queue); it is tied to the real HsmsProtocol running its own threads. HsmsHeader.encode / decode are translated statement by statement from the source on every run - every self.x followed through its property and the __init__ chain to the constructor argument (Gen/PyHsmsHdr.v) - and proved equal to the model's header functions for every header and byte string (C04_header_code_is_model).",
         note=NOTE_COMMON + " Thread interleavings of the TCP thread with the receiver thread are not quantified by the theorem (the rig observes quiescent states only); frames that fail to decode are outside the statement.",
         technique="Rocq proof (stream/segment commutation lemma + induction over segments and frames) + regenerated constants + in-Coq differential correspondence against the threaded receiver",
         design="5/C04",
@@ -118,7 +118,7 @@ CLAIMED = {
              "request in a connected state gets exactly one answer, the matching response with its system bytes or a Reject while closing "
              "(C05_requests_answered); data while not SELECTED: one Reject reason 4, no delivery, no change (C05_data_gate); well-formed data while SELECTED "
              "delivered (C05_data_delivered); the state is always one of the three (C05_three_states). Separate.req is refuted (C05_separate_refuted, known "
-             "finding). Tied to the code by driving a real HsmsProtocol with its own threads through random/directed histories in passive and active mode.",
+             "finding). Tied to the code by driving a real HsmsProtocol with its own threads through random/directed histories in passive and active mode. A data message answers an open DATA transaction only: with the system bytes of an open Select / Deselect / Linktest request it is delivered to the application (C05_data_delivered, D77).",
         note=NOTE_COMMON + " Partial on 'schedules': the accept-path ordering (state entered before the receive threads start) is checked by a directed history "
              "with a Select.req already buffered, not proven over thread interleavings; T5-T8 timers are outside the model.",
         technique="Rocq proof (step simulation + invariant over all histories) + translator-regenerated state machine + in-Coq differential correspondence on a threaded rig",
